@@ -62,6 +62,8 @@ pub const SPLICE_LINES: &[&str] = &[
     "# sourceFile:",
     "# {\"id\":\"sourceFile\",\"fileName\":\"\"}",
     "# {\"id\":\"sourceFile\",\"fileName\":\"unterminated",
+    "# {\"id\":\"sourceFile\",\"fileName\":\"C:\\src\\",
+    "# {\"id\":\"sourceFile\",\"fileName\":\"esc\\\"",
     "spliced.Klass -> a:",
     "spliced.Other -> zz:",
     "    1:5:void spliced(int):10:14 -> a",
@@ -110,9 +112,9 @@ pub fn mutate_tokens(src: &[u8], rng: &mut Rng, edits: usize, in_domain: bool) -
             }
             5 => {
                 // splice a line at a line boundary
-                let pool: &[&str] = if in_domain { &SPLICE_LINES[7..] } else { SPLICE_LINES };
+                let pool: &[&str] = if in_domain { &SPLICE_LINES[9..] } else { SPLICE_LINES };
                 let mut l = rng.pick(pool).as_bytes().to_vec();
-                let hdrs: &[&str] = if in_domain { &SPLICE_LINES[..4] } else { &SPLICE_LINES[..7] };
+                let hdrs: &[&str] = if in_domain { &SPLICE_LINES[..4] } else { &SPLICE_LINES[..9] };
                 if rng.chance(1, 2) {
                     l = rng.pick(hdrs).as_bytes().to_vec();
                 }
@@ -138,7 +140,7 @@ pub fn mutate_tokens(src: &[u8], rng: &mut Rng, edits: usize, in_domain: bool) -
             _ => {
                 if !in_domain {
                     // raw byte damage
-                    let b = [0x80u8, 0xff, 0xb2, 0xb9, 0xbc, 0x00, b'\r', 0xc3];
+                    let b = [0x80u8, 0xff, 0xb2, 0xb9, 0xbc, 0x00, b'\r', 0xc3, b'\\', b'"', b'\t'];
                     toks[i] = vec![*rng.pick(&b)];
                 } else {
                     let t = toks[i].clone();
@@ -182,6 +184,13 @@ pub fn token_soup(rng: &mut Rng, max_tokens: usize) -> Vec<u8> {
         b"# {\"id\":\"sourceFile\",\"fileName\":\"",
         b"\"}",
         b"\"",
+        b"\\",
+        b"\\\"",
+        b"\\\n",
+        b"'",
+        b"{",
+        b"}",
+        b"\t",
         b"\xb2",
         b"\xb9\xbc",
         b"\xff",
